@@ -17,10 +17,14 @@ var zzPayloadLens = []int{1, 2, 31, 32, 33, 64, 65}
 // hash is an uninterpreted function for the solver, the harness applies the
 // same function to key||salt built independently of the implementation.
 //
-//verif:harness kind=api unwind=128 bound=key∈{4,5,16,120,121,128,200}B,payload∈{1,2,31,32,33,64,65}B
+//verif:harness kind=api unwind=128 bound=key∈{4,5,16,120,121,128,200}B,payload∈{1,2,31,32,33,64,65}B(quick)/22-lengths-up-to-128B(thorough)
 func ZZ_C13_ObfuscateSpec() {
 	key := verifBytes("key", zzKeyLens[verifChoice("keyLen", len(zzKeyLens))])
-	n := zzPayloadLens[verifChoice("payloadLen", len(zzPayloadLens))]
+	pls := zzPayloadLens
+	if verifThorough() {
+		pls = []int{1, 2, 7, 8, 9, 15, 16, 17, 24, 31, 32, 33, 40, 47, 48, 63, 64, 65, 95, 96, 97, 128}
+	}
+	n := pls[verifChoice("payloadLen", len(pls))]
 	p := verifBytes("payload", n)
 	ob, err := newSalamanderObfuscator(key)
 	verifAssert(err == nil && ob != nil, "keys of 4+ bytes are accepted")
